@@ -162,9 +162,22 @@ def _observers(env):
 def mutate(env, cat, mod, c):
     """a visible mutation of a message: decoding further (unknown) fields into it, or the first mutable position found"""
     s = cat.shapes["M"]
-    if env.choose("mutation", 2) == 0:
+    groups = list(s.groups())
+    choice = env.choose("mutation", 3 if groups else 2)
+    if choice == 0:
         c.parse(sym.wire(gen_unknown(env, "more", known=[f.number for f in s.fields])))
         return True
+    if choice == 2:
+        # select another member of a oneof group on the copy (the selection table is mutable state of the message)
+        import betterproto
+
+        for g in groups:
+            cur = betterproto.which_one_of(c, g)[0]
+            for f in s.fields:
+                if f.group == g and f.name != cur and f.kind in ("int32", "sint32", "uint32", "int64", "string", "bytes", "bool"):
+                    setattr(c, f.name, {"string": "zz", "bytes": b"zz", "bool": True}.get(f.kind, 41))
+                    return True
+        return False
     for f in s.fields:
         if f.group:
             continue
@@ -268,7 +281,7 @@ BUDGET = {"quick": 200, "thorough": 1200}
 UNIT_PATH_CAP = {"quick": 80, "thorough": 20000}
 BOUNDS = {
     "quick": "8 shapes x {constructed, decoded from spec bytes (optionally with an unknown field), loaded from a dict} x each of 11 observers (and any 2 observers "
-    "in sequence for two shapes) ; x {copy, deepcopy, pickle (via __reduce__)} with and without prior lazy reads, then a mutation of the deep copy; values one "
+    "in sequence for two shapes) ; x {copy, deepcopy, pickle (via __reduce__)} with and without prior lazy reads, then a mutation of the deep copy (unknown fields decoded into it, an in-place edit, or another member of a oneof group selected); values one "
     "byte wide, containers <= 1, nesting <= 2; 80 paths per unit",
     "thorough": "15 shapes; any 2 observers in sequence for every shape; 20000 paths per unit",
 }
